@@ -50,6 +50,10 @@ def gen_case(rng):
                              allow_degenerate=False, special=special, tie_heavy=rng.random() < 0.5,
                              crlf_p=rng.choice((0.0, 0.0, 0.3, 1.0)), blank_p=rng.choice((0.0, 0.1, 0.5)),
                              preamble_p=0.25, first_line_max=None, notations=merge.NOTATIONS_WIDE)
+    if rng.random() < 0.04:
+        for s_ in srcs:
+            if merge.inflate_message(rng, s_, "thousands_of_lines"):
+                break
     opts = ["--color", "never", "--blocksz", str(bsz), "--tz-offset", "+00:00"]
     sep = b""
     if rng.random() < 0.4:
